@@ -34,3 +34,4 @@ run stack-slice-single-element-view.diff C10
 run ring-of-single-pass-omap-new-closure-mapset-clone-loop.diff C04 C10 C18
 run partition-rescans-swapped-element.diff C07 C17
 run comparenatural-digit-strings-no-overflow.diff C20
+run quote-double-quote-style-for-many-single-quotes.diff C15 C16
